@@ -246,6 +246,9 @@ def make_field(mesh, kind, perm, seed, renamed=False):
             arr = np.full(n + (1,), 2.5)
         elif kind == "s-tracer":
             arr = C.tracer(n, 1, seed)
+        elif kind == "s-tracer-int":
+            # integer-typed values (a field of counts): the interpolated values of the rotated field are not integers
+            return df.Field(mesh, nvdim=1, value=C.tracer(n, 1, seed).astype(int), dtype=int, unit="A/m"), None
         else:
             c0, c = LIN[kind]
             arr = (c0 + rel @ np.asarray(c))[..., None]
@@ -658,7 +661,8 @@ INTERP_MESHES = {
     "n555-c2e-9": ((-4e-9, 0.0, 10e-9), (2e-9, 2e-9, 2e-9), (5, 5, 5), XYZ),
     "n746-c0.3,0.3,0.1-abc": ((0.1, 0.2, -0.7), (0.3, 0.3, 0.1), (7, 4, 6), ABC),
 }
-FIELD_KINDS = ["s-tracer", "v-tracer", "s-uniform", "v-uniform", "s-linxyz", "v-linear", "s-linx", "s-liny", "s-linz"]
+FIELD_KINDS = ["s-tracer", "v-tracer", "s-uniform", "v-uniform", "s-linxyz", "v-linear", "s-linx", "s-liny", "s-linz",
+               "s-tracer-int"]
 EXPLICIT_N = (7, 5, 6)
 
 
@@ -713,8 +717,9 @@ def _rot_alphabet(tier):
 def unit_interp(ctx):
     quick = ctx.tier == "quick"
     axes, angs = _rot_alphabet(ctx.tier)
-    mname = ctx.choose("mesh", list(INTERP_MESHES)[:2] if quick else list(INTERP_MESHES))
-    kind = ctx.choose("field", FIELD_KINDS)
+    mname = ctx.choose("mesh", list(INTERP_MESHES)[:3] if quick else list(INTERP_MESHES))
+    # quick: the nanometre-sized mesh (absolute margins of 1e-9 are half a cell there) with two field kinds only
+    kind = ctx.choose("field", ["s-tracer", "v-tracer"] if quick and mname == "n555-c2e-9" else FIELD_KINDS)
     if kind.startswith("v-"):
         perm = ctx.choose("mapping", [PERMS[0], PERMS[3], PERMS[1]] if quick else PERMS)
     else:
